@@ -53,13 +53,26 @@ class VersionsProfile(StoreProfile):
             i = len(segs)
         else:
             star = "/".join(segs[:i] + ["*"] + segs[i + 1:])
-        found = st.find_all_simple(star)
+        last_seg = star.split("/")[-1]
+        if last_seg in m.alias and i < len(segs) - 1:
+            # an extension alias in the Sid: the siblings are those of every member extension; per version the answer is
+            # the one whose remaining segments (state, extension) are greatest (C09's reading of '>')
+            found = []
+            for ext in m.alias[last_seg]:
+                f = st.find_all_simple("/".join(star.split("/")[:-1] + [ext]))
+                if f is None:
+                    return i, None
+                found += f
+        else:
+            found = st.find_all_simple(star)
         if found is None:
             return i, None
         out = {}
         for u in found:
             s = u.split(":", 1)[1]
-            out[s.split("/")[i]] = u
+            v = s.split("/")[i]
+            if v not in out or s.split("/")[i:] > out[v].split(":", 1)[1].split("/")[i:]:
+                out[v] = u
         return i, out
 
     def successor(self, run, version):
@@ -139,6 +152,13 @@ class VersionsProfile(StoreProfile):
                 vals = self.vocab(run).values(t2.name, t2.keys[-1]) or []
                 if vals:
                     sid = sid + "/" + rng.choice(vals)
+        # a file Sid spelled with an extension alias ('maya' for ma / mb): the version calls expand it
+        if depth == len(segs) and rng.random() < 0.25:
+            names = sorted(a for a, members in m.alias.items() if sid.split("/")[-1] in members)
+            if names:
+                sid = "/".join(sid.split("/")[:-1] + [rng.choice(names)])
+                if not m.natural_type(sid):
+                    sid = "/".join(segs[:depth])
         tn2 = m.natural_type(sid)
         if not tn2:
             return {"op": "restart"}
@@ -147,6 +167,17 @@ class VersionsProfile(StoreProfile):
             vs = sid.split("/")
             vs[k2] = rng.choice(["*", ">"] + (self.vocab(run).values(tn2, VERSION_KEY) or []))
             sid = "/".join(vs)
+        if k2 is not None and k2 > 0 and rng.random() < 0.12:
+            # a branch WITHOUT any version yet (another value at the level above the version): first-version behaviour of
+            # '*' / '>' / concrete / absent version
+            vs = sid.split("/")
+            vals = [v for v in (self.vocab(run).values(tn2, m.by_name[tn2].keys[k2 - 1]) or []) if v != vs[k2 - 1]]
+            if vals:
+                vs[k2 - 1] = rng.choice(vals)
+                vs[k2] = rng.choice(["*", ">", vs[k2]])
+                cand = "/".join(vs) if rng.random() < 0.7 else "/".join(vs[:k2])
+                if m.natural_type(cand) == (tn2 if cand.count("/") == sid.count("/") else m.natural_type(cand)) and m.natural_type(cand):
+                    sid = cand
         if r < 0.45:
             return {"op": "publish", "sid": sid}
         return {"op": "ask", "sid": sid, "what": rng.choice(["get_last", "get_next", "get_new"]), "kw": rng.random() < 0.4}
@@ -162,9 +193,18 @@ class VersionsProfile(StoreProfile):
         else:
             raise ValueError(step["op"])
 
+    def alias_norm(self, run, sid, string):
+        """For a Sid spelled with an extension alias the statement's 'every other field unchanged' cannot be literal
+        (an existing sibling has a member extension, never the alias): a member of that alias counts as the alias."""
+        a = sid.split("/")[-1]
+        g = string.split("/")
+        if a in run.m.alias and len(g) == len(sid.split("/")) and g[-1] in run.m.alias[a]:
+            g[-1] = a
+        return "/".join(g)
+
     def others_unchanged(self, run, sid, got, i, what):
         segs = sid.split("/")
-        g = got.string.split("/")
+        g = self.alias_norm(run, sid, got.string).split("/")
         base = segs[:i] + segs[i + 1:]
         res = g[:i] + g[i + 1:]
         run.check(res[: len(base)] == base and len(g) == max(len(segs), i + 1), "C18.other_fields_changed",
@@ -188,6 +228,8 @@ class VersionsProfile(StoreProfile):
         cur = sid.split("/")[i] if has_version else None
         last = max(existing) if existing else None
         det = {"call": what, "sid": sid, "existing": sorted(existing), "got": got.uri}
+        if not existing and cur in ("*", ">"):
+            run.probes["search_version_on_empty_branch"] += 1
         if what == "get_last":
             if last is None:
                 run.check(got.uri == "", "C18.get_last_should_be_empty", det)
@@ -222,6 +264,8 @@ class VersionsProfile(StoreProfile):
         if got.uri:
             self.others_unchanged(run, sid, got, i, what)
         run.case_mark(what, sid, sorted(existing))
+        if sid.split("/")[-1] in m.alias:
+            run.probes["version_call_on_alias_sid"] += 1
 
     def zero(self, run):
         pre, width = self.version_format(run)
@@ -234,7 +278,7 @@ class VersionsProfile(StoreProfile):
             return
         segs = sid.split("/")
         want = segs[:i] + [nxt] + segs[i + 1:]
-        run.check(got.string == "/".join(want), oracle, dict(det, want="/".join(want)))
+        run.check(self.alias_norm(run, sid, got.string) == "/".join(want), oracle, dict(det, want="/".join(want)))
 
     def publish(self, run, sid):
         """create(get_new('version')): strictly increasing, never reused versions."""
@@ -252,7 +296,7 @@ class VersionsProfile(StoreProfile):
         det = {"sid": sid, "new": new.uri, "existing": sorted(existing)}
         run.check(v not in existing, "C18.publish_reuses_version", det)
         run.check(all(v > e for e in existing), "C18.publish_not_increasing", det)
-        if "*" in new.string or ">" in new.string:
+        if "*" in new.string or ">" in new.string or new.string.split("/")[-1] in m.alias:
             run.stats["publish_of_search_skipped"] += 1
             return
         tn = m.natural_type(new.string)
